@@ -32,9 +32,9 @@ Lemma alias_same_order_keeps :
   keeps 0 (Rg 0) (Rg 1) (upd st_alloc 0 (mkReg K64 3 2 2 [1; 0] [[0; 0]; [0; 0]])) = true.
 Proof. reflexivity. Qed.
 
-(* F-LOG1PEXP-ALIAS: c.Log1pExp(c) for 18 < c <= 33.3 runs  c.Neg(c); c.Exp(c); c.Add(c, c):
-   the third step needs the ORIGINAL argument, which the first step overwrote.
-   Result 2 exp(-x) instead of x + exp(-x). *)
+(* Regression case (retired finding F-C08-LOG1PEXP-ALIAS, fixed by HEAD 7035970): c.Log1pExp(c) for
+   18 < c <= 33.3 used to run c.Neg(c); c.Exp(c); c.Add(c, c) = 2 exp(-x).  Now the intermediate lives in a
+   temporary and the old witness gives x + exp(-x) on the aliased and on the fresh receiver. *)
 Definition st_l1p : St (A := R) := upd stR0 0 (mkReg K64 20 0 0 [] []).
 
 Lemma cmp1 : Rleb 20 (-37) = false. Proof. unfold Rleb. destruct (Rle_dec 20 (-37)); [lra|reflexivity]. Qed.
@@ -42,12 +42,11 @@ Lemma cmp2 : Rleb 20 18 = false. Proof. unfold Rleb. destruct (Rle_dec 20 18); [
 Lemma cmp3 : Rleb 20 (Q2R (333 # 10)) = true.
 Proof. unfold Rleb. destruct (Rle_dec 20 (Q2R (333 # 10))) as [H|H]; [reflexivity|]. exfalso. apply H. unfold Q2R. simpl. lra. Qed.
 
-Lemma alias_log1pexp_refuted :
+Lemma alias_log1pexp_old_witness :
   exists t t', exec FR idR (ILog1pExp 0 (Rg 0)) st_l1p = Ok t /\
                exec FR idR (ILog1pExp 1 (Rg 0)) st_l1p = Ok t' /\
-               rval (t 0%nat) = exp (- 20) + exp (- 20) /\
-               rval (t' 1%nat) = exp (- 20) + 20 /\
-               rval (t 0%nat) <> rval (t' 1%nat).
+               rval (t 0%nat) = 20 + exp (- 20) /\
+               rval (t' 1%nat) = 20 + exp (- 20).
 Proof.
   unfold exec, do_log1pexp.
   change (rval (rd st_l1p (Rg 0))) with 20.
@@ -56,7 +55,5 @@ Proof.
   change (fleb FR 20 (fofQ FR (333 # 10))) with (Rleb 20 (Q2R (333 # 10))). rewrite cmp3.
   eexists. eexists. split; [reflexivity|]. split; [reflexivity|].
   cbn. unfold idR. replace (-20) with (- (20)) by lra.
-  split; [reflexivity|]. split; [reflexivity|].
-  assert (exp (- (20)) < 1). { rewrite <- exp_0. apply exp_increasing. lra. }
-  lra.
+  split; reflexivity.
 Qed.
